@@ -26,7 +26,7 @@ IsEvent(e) == l <= Len(Rec) /\ Rec[l].ev = e /\ l' = l + 1
 E == Rec[l]
 
 NoCfg == [cap |-> Unb, strat |-> "restart", stream |-> FALSE, tmo |-> -1, failto |-> FALSE, owning |-> FALSE,
-          sscr |-> <<>>, pscr |-> <<>>, fscr |-> <<>>, ty |-> "0", items0 |-> 0, ended0 |-> FALSE, iscr |-> <<>>]
+          sscr |-> <<>>, pscr |-> <<>>, fscr |-> <<>>, ty |-> "0", items0 |-> 0, ended0 |-> FALSE, iscr |-> <<>>, tscr |-> <<>>]
 OpOf(r) == [op |-> r.op, h |-> r.h, nh |-> r.nh, a |-> r.a, scr |-> r.scr, d |-> r.d, to |-> r.to,
             ty |-> r.ty, nh2 |-> r.nh2, h2 |-> r.h2,
             cfg |-> IF "cfg" \in DOMAIN r THEN r.cfg ELSE NoCfg]
@@ -48,7 +48,7 @@ IdleReason(prefix, a) ==
   ELSE prefix \o "closed"
 HeldAsChild(a) == \E p \in Actor : ~Terminated(p) /\ \E i \in 1..Len(act[p].kids) : act[p].kids[i].a = a
 
-TInit == EmptyInit /\ l = 1 /\ sv = [a \in Actor |-> 0] /\ pend = [c \in Client |-> NoOp] /\ TLCSet(2, {}) /\ TLCSet(3, 1)
+TInit == EmptyInit /\ l = 1 /\ sv = [a \in Actor |-> <<0, 0, 0>>] /\ pend = [c \in Client |-> NoOp] /\ TLCSet(2, {}) /\ TLCSet(3, 1)
 
 -----------------------------------------------------------------------------
 T_Reset == /\ IsEvent("reset")
@@ -104,6 +104,7 @@ T_Exit == /\ IsEvent("exit")
                           THEN (IF act[t].stream THEN "exit.loop.callback.stream"
                                 ELSE IF act[t].jh # "none" THEN "exit.loop.callback.owning" ELSE "exit.loop.callback")
                           ELSE IF t \in Actor /\ act[t].tmo >= 0 /\ ~act[t].failto /\ hst.ab[t] # <<>> THEN "exit.loop.aftertimeout"   \* an abandoned invocation was to be survived
+                          ELSE IF t \in Actor /\ LiveH(t, StrongKinds) THEN "exit.loop.held"      \* the task ended although strong handles exist and nobody stopped it
                           ELSE "exit.loop", t \in Actor /\ act[t].pc \in {"done", "failed"})
                      /\ G("exit.how", (E.how = "panic") <=> (act[t].why = "panic"))
                      /\ G("exit.cur", cur = t /\ ~yl)
@@ -373,15 +374,24 @@ TNext == \/ T_OpBegin \/ T_Issue \/ T_OpEndUnissued
             /\ UNCHANGED pend
 \* Fairness monitor (C13: "an explicit stop or handle drop terminates it even if the stream never ends").  The real
 \* loop picks between a ready mailbox and a ready stream at random (futures::select!), the specification leaves the
-\* choice open; a run in which the stream wins FairBound times in a row against a non-empty (or closed) mailbox has probability
-\* 2^-FairBound under the real tie-break and is rejected: the mailbox (and a stop request in it) is being starved.
-FairBound == 40
+\* choice open; a run in which one side wins FairBound times in a row although the other one was ready has probability
+\* 2^-FairBound under the real tie-break and is rejected: the mailbox (and a stop request in it), or the stream (and its
+\* end, after which the actor is to finish), is being starved.
+FairBound == 30
+\* sv[a] = <<stream items taken in a row while the mailbox had something (or was closed),
+\*           mailbox payloads taken in a row while the stream had an item ready (or had ended),
+\*           of these: ticks of the actor's own timers taken in a row after the stream had ended>>
 SvNext == sv' = [a \in Actor |->
-            IF l' > l /\ E.ev = "reset" THEN 0
-            ELSE IF act'[a].sq.next > act[a].sq.next THEN (IF act[a].mq # <<>> \/ ~ChanOpen(a) THEN sv[a] + 1 ELSE 0)
-            ELSE IF Len(act'[a].mq) < Len(act[a].mq) \/ act'[a].pc \in {"done", "failed", "unborn"} THEN 0
+            IF l' > l /\ E.ev = "reset" THEN <<0, 0, 0>>
+            ELSE IF act'[a].sq.next > act[a].sq.next THEN <<IF act[a].mq # <<>> \/ ~ChanOpen(a) THEN sv[a][1] + 1 ELSE 0, 0, 0>>
+            ELSE IF Len(act'[a].mq) < Len(act[a].mq) /\ act[a].stream /\ act[a].pc = "idle"
+                 THEN <<0, IF act[a].sq.ready > 0 \/ act[a].sq.ended THEN sv[a][2] + 1 ELSE 0,
+                           IF act[a].sq.ready = 0 /\ act[a].sq.ended /\ Head(act[a].mq).src = "timer" THEN sv[a][3] + 1 ELSE 0>>
+            ELSE IF act'[a].pc \in {"done", "failed", "unborn"} THEN <<0, 0, 0>>
             ELSE sv[a]]
-C13_FairSelect == \A a \in Actor : sv[a] <= FairBound
+C13_FairSelect == \A a \in Actor : sv[a][1] <= FairBound /\ sv[a][2] <= FairBound
+\* (C10: "timers never keep the actor alive": a stream-attached actor whose stream has ended goes on handling its own ticks)
+C10_TicksAfterStreamEnd == \A a \in Actor : sv[a][3] <= FairBound - 2
 TSpec == TInit /\ [][TNext /\ SvNext]_tvars
 
 Track == TLCSet(3, IF l > TLCGet(3) THEN l ELSE TLCGet(3))
